@@ -187,6 +187,10 @@ def run(chk):
     chk.floor("C13-R3", 2)
     # ---- R4 parametricity ---------------------------------------------------------------------------------------------
     check_parametricity(chk, F)
+    if chk.tier == "thorough":
+        F2 = facts_for(chk, "wit_thorough.cpp")
+        check_parametricity(chk, F2)
+        chk.note("parametricity additionally checked over DIM = 1..10 (wit_thorough.cpp)")
     chk.floor("C13-R4", 10)
     chk.not_decided = ["nothing value dependent; DIM = 5..10 are covered by the thorough tier's witness set and by parametricity"]
 
